@@ -10,7 +10,7 @@ count +/- 1  a function that adjusts an element count by one does so exactly onc
 """
 from . import typestate
 from .facts import _k, strip_bitcasts
-from .ir import const_int, resolve_addr
+from .ir import const_int, resolve_addr, unit_step
 
 
 def ret_leaves(f, ref, seen=None, depth=0):
@@ -212,10 +212,11 @@ def count_once(m, f, rule, struct, field, site=None):
         a = resolve_addr(f, ins.o[1])
         if a.fsteps[-1:] != ((struct, field),) or not (isinstance(a.root, str) and a.root.startswith('$')):
             return 0
-        v = f.get(ins.o[0])
-        if v is None or v.op != 'add':
+        base, step = unit_step(f, ins.o[0])
+        if not step:
             return 0
-        ld = f.get(v.o[0])
+        v = f.get(ins.o[0])
+        ld = f.get(base) if isinstance(base, str) else None
         if ld is None:
             return 0
         if ld.op == 'load':
@@ -224,14 +225,16 @@ def count_once(m, f, rule, struct, field, site=None):
         elif ld.ref not in stored_vals:
             # (store-to-load forwarding) the operand may be the value a previous store put there
             return 0
-        c = const_int(v.o[1])
-        return 1 if c == 1 else (-1 if c == (1 << 64) - 1 else 0)
+        return step
 
     for i in f.all_insts():
         if i.op == 'store' and resolve_addr(f, i.o[1]).fsteps[-1:] == ((struct, field),) and isinstance(i.o[0], str):
             stored_vals.add(i.o[0])
-    if not any(is_adj(i) for i in f.all_insts()):
+    adjs = [i for i in f.all_insts() if is_adj(i)]
+    if not adjs:
         return False
+    if all(i.block.idx in {b.idx for s in i.block.succ for b in f.reachable_from(s)} for i in adjs):
+        return False      # every adjustment sits in a loop: the function counts, it does not link/unlink one node
 
     def transfer(ins, st, ps):
         if ins.op == 'call' and ins.x.get('noreturn'):
